@@ -162,6 +162,23 @@ def run(db, chk):
            "the CreateIndex arm reads the field ids of the schema being built (%d site(s)), tests membership (%s), every successful path "
            "passes the check (%s) and the check can fail the commit (%d error exit(s) in the arm)" % (len(reads), member, okp, len(stops)),
            f.loc(reads[0][1]["ln"]) if reads else f.loc())
+    # Project removes the data files whose fields all left the schema.  When the columns that stay were never written (all-NULL
+    # columns added as metadata) a fragment is left with rows and no file at all, and no reader can open it: after the removal the
+    # arm has to look at what is left and be able to stop
+    sws, ef = arm_filter(c, "Project")
+    reach = c.reachable_from([0], include_start=True, edge_filter=ef)
+    excl = reach - shared
+    drops = [(b, t) for b, t in c.calls() if b in excl and has_name(t, "Vec::<T, A>::retain", "Vec::<T>::retain") and
+             ("field", "files") in c.op_origins(t["args"][0], transparent=lambda t_: True)]
+    tests = [(b, t) for b, t in c.calls() if b in excl and has_name(t, "Vec::<T, A>::is_empty", "Vec::<T>::is_empty", "Vec::<T, A>::len", "<[T]>::is_empty", "<impl [T]>::is_empty") and
+             ("field", "files") in c.op_origins(t["args"][0], transparent=lambda t_: True) and any(b in c.reachable_from([db_]) for db_, _ in drops)]
+    stops = [i for (i, j, st) in c.aggregates(adt="Result", variant="Err") if i in excl and any(i in c.reachable_from([tb]) for tb, _ in tests)] + \
+            [b for b, t in c.calls() if b in excl and has_name(t, "FromResidual") and any(b in c.reachable_from([tb]) for tb, _ in tests)]
+    chk.ob(R3, "project-leaves-a-file", bool(drops) and bool(tests) and bool(stops),
+           "the Project arm removes data files (%d retain on .files); afterwards it tests what is left (%d emptiness test(s)) and can fail the "
+           "commit (%d error exit(s))%s" % (len(drops), len(tests), len(stops), "" if tests and stops else
+                                          ": a fragment whose remaining columns were never written is published with rows and no data file"),
+           f.loc(drops[0][1]["ln"]) if drops else f.loc())
     # ---- write_manifest_file
     R4 = "DOM-publish"
     chk.rule(R4, "flags recomputed and max fragment id updated before the handler is called; sanity checks before publication")
